@@ -250,6 +250,8 @@ class Ctx:
             return x.finite()
         if type(x).__name__ == 'SC':
             return x.re.finite() and x.im.finite()
+        if type(x).__name__ == 'Jet':
+            return x.finite()
         try:
             return math.isfinite(x)
         except TypeError:
